@@ -94,13 +94,3 @@ Section LazyOnce.
   Qed.
 End LazyOnce.
 
-(* ------------------------------------------------------------------ Unzip: strict protocol refuted *)
-
-(* sink 0 always Ready; sink 1 pends once on poll_close: Unzip closes sink 0 twice *)
-Lemma sunzip_strict_refuted : exists (items : list (N * N)) (d0 d1 : sds N),
-    match sdrive (sunzip (srec N) (srec N)) 10 items (d0, d1) [] with
-    | (o, _, s') => o = SFinished /\ swf (slg (fst s')) = false /\ swfw (slg (fst s')) = true
-    end.
-Proof.
-  exists [], (mksds [] [] [] [] []), (mksds [] [] [] [RPend] []). vm_compute. auto.
-Qed.
